@@ -15,6 +15,7 @@ RULE = ("systematic sweep: for every public data operation (single- and multi-ke
         "received nothing, the first command, or everything; recv timeout with the reply still in flight, reset, EOF, "
         "error) and for every reply tampering (ERROR / CLIENT_ERROR / SERVER_ERROR / garbage line; truncation at "
         "byte 0, 1, middle, last followed by EOF or silence), each followed by two further calls on the same object. "
+        "The operation library includes raw_command (single-line commands and storage commands with their data block, blocks ending in CR LF among them) and, beside the default arguments, the optional arguments away from their defaults. Rejected batches: a multi-item call refused on the client side because of one item (illegal key, unencodable value) placed after 0-200 KiB of good items or 999-3000 small ones, then two further calls. Deserialiser failures: ten exception types raised part-way through a reply. "
         "Random part: Hypothesis histories of 1-12 calls with faults drawn per event kind, reply segmentation and "
         "EINTR, 1-3 servers for HashClient with clock advances. Oracle (from the fake network's log): every byte a "
         "call receives was sent in answer to that call's own commands (reply tags); no recv that can never be "
@@ -112,6 +113,35 @@ def sweep_cases(tier, seed, interrupts=False, lib=None):
                                 yield dict(base, calls=calls)
 
 
+def rejected_batch_cases(tier, seed):
+    """a multi-item call that is refused on the client side because of ONE item - an illegal key, a value the encoding
+    cannot express - placed after 0 ... 200 KiB of good items; the same object is then used again"""
+    big = b"x" * 30000
+    for kind, extra in STACKS:
+        for ie in (False, True):
+            for nr in (False, True):
+                for n_good in (0, 1, 3, 7):
+                    good = {"good-%d" % j: big for j in range(n_good)}
+                    for bad_k, bad_v in (("bad key", b"v"), ("fine", "not-ascii-\u00e9"), ("k" * 251, b"v"), ("", b"v")):
+                        batch = dict(good)
+                        batch[bad_k] = bad_v
+                        ops_ = [{"op": "set_many", "values": batch, "noreply": nr}]
+                        if isinstance(bad_v, bytes):
+                            ops_ += [{"op": "delete_many", "keys": list(batch), "noreply": nr}, {"op": "get_many", "keys": list(batch)}]
+                        for r in ops_:
+                            if kind.startswith("hash") and r["op"] != "set_many":
+                                continue
+                            for warm in (False, True):
+                                pre = [{"op": {"op": "get", "key": "warmup"}}] if warm else []
+                                yield {"kind": kind, "cfg": dict(extra, ignore_exc=ie), "calls": pre + [{"op": r}] + FOLLOW, "follow": True, "coalesce": False}
+    # very many small items, the refused one far down the list
+    for kind, extra in STACKS[:2]:
+        for n in (999, 3000):
+            keys = ["key-%d" % j for j in range(n)] + ["bad key"]
+            for r in ({"op": "set_many", "values": {k: b"v" * 40 for k in keys}, "noreply": False}, {"op": "delete_many", "keys": keys, "noreply": False}, {"op": "get_many", "keys": keys}):
+                yield {"kind": kind, "cfg": dict(extra, ignore_exc=False), "calls": [{"op": r}] + FOLLOW, "follow": True, "coalesce": False}
+
+
 def serde_failure_cases(tier, seed):
     """a deserialiser that raises (any exception type) part-way through a reply: the rest of that reply must not be
     left on a connection that stays in use"""
@@ -180,6 +210,7 @@ def history_strategy(tier, interrupts=False):
 
 PARTS = [
     Part("single-fault-sweep", "enum", check, cases=sweep_cases, exhaustive=True),
+    Part("rejected-batches", "enum", check, cases=rejected_batch_cases, exhaustive=True),
     Part("deserialiser-failures", "enum", check_serde_failure, cases=serde_failure_cases, exhaustive=True),
     Part("random-histories", "hyp", check, strategy=history_strategy, minimise=None,
          examples={"quick": 400, "thorough": 15000}, shards={"quick": 6, "thorough": 16}),
